@@ -294,6 +294,7 @@ OBLIGATIONS = [
          encodes=['BoundedExecutor.submit release callbacks', 'TransferManager executors'], assumptions=['S1', 'S2']),
 ]
 
-from harness.corace import OB_SEM, OB_SEMP, sliding_window_preempt, sliding_window_waiters  # noqa: E402
-OBLIGATIONS += [dict(OB_SEM, id='C12.3', cases_thorough=[(1, 2), (1, 3), (2, 3), (2, 4)])]
+from harness.corace import OB_SEM, OB_SEMN, OB_SEMP, sliding_window_preempt, sliding_window_waiters  # noqa: E402
+OBLIGATIONS += [dict(OB_SEM, id='C12.3', cases_thorough=[(1, 2), (1, 3), (2, 3), (2, 4), (2, 'UUtt'), (2, 'UUttt'), (1, 'Utt')])]
 OBLIGATIONS += [dict(OB_SEMP, id='C12.3p')]
+OBLIGATIONS += [dict(OB_SEMN, id='C12.3n')]
